@@ -155,3 +155,55 @@ func isGenerated(c *core.Ctx, fn *ssa.Function) bool {
 	f := c.Fset.Position(p).Filename
 	return len(f) > 7 && (f[len(f)-7:] == "_gen.go")
 }
+
+// loopHeaderOf returns the innermost loop header (a block with a back edge)
+// whose loop contains instruction in, or nil.
+func loopHeaderOf(in ssa.Instruction) *ssa.BasicBlock {
+	b := in.Block()
+	fn := b.Parent()
+	var best *ssa.BasicBlock
+	for _, h := range fn.Blocks {
+		back := false
+		for _, p := range h.Preds {
+			if h.Dominates(p) {
+				back = true
+			}
+		}
+		if !back || !h.Dominates(b) {
+			continue
+		}
+		// b is in the loop if it can reach h
+		reach := false
+		if b == h {
+			reach = true
+		} else {
+			r := core.ReachFrom(core.After(in), nil, nil)
+			if len(h.Instrs) > 0 && r.Has(h.Instrs[0]) {
+				reach = true
+			}
+		}
+		if !reach {
+			continue
+		}
+		if best == nil || best.Dominates(h) {
+			best = h
+		}
+	}
+	return best
+}
+
+// earlyReturnAfter reports a return reachable from just after `in` without
+// going back through the header of the loop containing `in`.
+func earlyReturnAfter(in ssa.Instruction) *ssa.Return {
+	h := loopHeaderOf(in)
+	if h == nil {
+		return nil
+	}
+	r := core.ReachFrom(core.After(in), func(x ssa.Instruction) bool { return x.Block() == h }, nil)
+	for _, ret := range core.Returns(in.Parent()) {
+		if r.Has(ret) {
+			return ret
+		}
+	}
+	return nil
+}
